@@ -87,7 +87,13 @@ class QueueDriver(Entity):
         target_event.time = self.now
         target_event.target = self.target
         target_event.add_completion_hook(schedule_poll)
-        return [target_event]
+        # The queue only notifies when it goes from empty to non-empty, so a burst
+        # arriving at one instant produces a single poll.  Re-check right after the
+        # worker has started this item (the payload sorts first: it was created
+        # earlier): if the worker still has capacity, the next item is polled now
+        # instead of waiting for a completion.
+        recheck = QueueNotifyEvent(time=self.now, target=self, queue_entity=self.queue)
+        return [target_event, recheck]
 
     def _handle_notify(self, _: QueueNotifyEvent) -> list[Event]:
         """Queue has work available—poll if target has capacity."""
